@@ -139,13 +139,17 @@ class Flow:
     def run(self):
         g = self.cfg
         self.IN = {g.entry.id: self.init.copy()}
-        work = [g.entry.id]
+        rpo = _rpo(g)
+        import heapq
+        work = [(rpo.get(g.entry.id, 0), g.entry.id)]
+        inwork = {g.entry.id}
         it = 0
         while work:
             it += 1
             if it > self.max_iter:
                 raise AnalysisError("dataflow did not converge")
-            nid = work.pop()
+            _, nid = heapq.heappop(work)
+            inwork.discard(nid)
             node = g.nodes[nid]
             env_in = self.IN[nid]
             self.visited.add(nid)
@@ -162,8 +166,9 @@ class Flow:
                 new = join_env(old, e, self.join) if old is not None else e.copy()
                 if old is None or new != old:
                     self.IN[b] = new
-                    if b not in work:
-                        work.append(b)
+                    if b not in inwork:
+                        inwork.add(b)
+                        heapq.heappush(work, (rpo.get(b, 10 ** 6), b))
         return self
 
     def exc_state(self, node, env_in, env_out):
@@ -529,6 +534,36 @@ class Flow:
                 else:
                     env[k] = FALSY if is_none(cur) is not False else cur
             return
+
+
+def _rpo(g):
+    """Reverse post-order numbering of the CFG (loops converge before their
+    exits are processed)."""
+    key = id(g)
+    r = _RPO_CACHE.get(key)
+    if r is not None and r[0] is g:
+        return r[1]
+    seen, post = set(), []
+    stack = [(g.entry.id, iter(reversed(g.succ[g.entry.id])))]
+    seen.add(g.entry.id)
+    while stack:
+        nid, it = stack[-1]
+        adv = False
+        for b, l in it:
+            if b not in seen:
+                seen.add(b)
+                stack.append((b, iter(reversed(g.succ[b]))))
+                adv = True
+                break
+        if not adv:
+            post.append(nid)
+            stack.pop()
+    out = {nid: i for i, nid in enumerate(reversed(post))}
+    _RPO_CACHE[key] = (g, out)
+    return out
+
+
+_RPO_CACHE = {}
 
 
 def _load(t):
